@@ -1994,4 +1994,40 @@ theorem names_unique (f : FormatRec) (h : InvF f) (n : Str) :
     have := entries_functional f h.keys n _ _ (f.opt_entry h.ok o h1 n n1) (f.copt_entry h.ok c h2 n n2)
     cases this
 
+/-! ### the executable deciders of `Model/Builder.lean` decide the well-formedness hypotheses -/
+
+theorem shortOkB_iff (s : Option Str) : shortOkB s = true ↔ ∀ t, s = some t → t.length = 1 := by
+  cases s with
+  | none => simp [shortOkB]
+  | some t => simp [shortOkB]
+
+theorem Opt.wfB_iff (o : Opt) : o.wfB = true ↔ o.wf := by
+  simp only [Opt.wfB, Opt.wf, Bool.and_eq_true, decide_eq_true_eq, shortOkB_iff]
+
+theorem CmdOpt.wfB_iff (c : CmdOpt) : c.wfB = true ↔ c.wf := by
+  simp only [CmdOpt.wfB, CmdOpt.wf, Bool.and_eq_true, decide_eq_true_eq, shortOkB_iff, List.all_eq_true,
+    beq_iff_eq, and_assoc]
+
+theorem Op.wfB_iff (op : Op) : op.wfB = true ↔ op.wf := by
+  cases op <;>
+    simp only [Op.wfB, Op.wf, List.all_eq_true, Opt.wfB_iff, CmdOpt.wfB_iff]
+
+/-- the element's single addition is well formed (the hypothesis of `ctor_inv`, per element) -/
+def Elem.wf (e : Elem) : Prop := ∀ op, e.toOp? = some op → op.wf
+
+theorem Elem.wfB_iff (e : Elem) : e.wfB = true ↔ e.wf := by
+  cases e <;> simp [Elem.wfB, Elem.wf, Elem.toOp?, Op.wf, Opt.wfB_iff, CmdOpt.wfB_iff]
+
+/-- **The formats that can exist**: an `ArgsFormat` is obtained either from
+`ArgsFormat(elements, base)` or as `builder.format` of an `ArgsFormatBuilder(base)` after any
+history of calls, where `base` is `None` or a format obtained the same way - the class has no
+other constructor and no mutator.  Elements are what the element constructors produce (decided
+by `Elem.wfB` / `Op.wfB`). -/
+inductive Built : Option FormatRec → Prop where
+  | none : Built none
+  | ctor {base : Option FormatRec} {es : List Elem} {f : FormatRec} :
+      Built base → es.all Elem.wfB = true → ctor es base = .ok f → Built (some f)
+  | format {base : Option FormatRec} {ops : List Op} :
+      Built base → ops.all Op.wfB = true → Built (some (format (run (Builder.empty base) ops)))
+
 end Clikit.ArgsFmt
